@@ -19,3 +19,22 @@ CLAIMS["C07"] = {
     "note": "Trusts the reference fold in harness/internal/model (counters add, timer multiset union, sampled counts add with 1e-9 relative tolerance, sets unite, gauge = any value of the newest timestamp, newest timestamp kept). The forwarder's merging is exercised by C15.",
     "technique": "property-based testing (rapid): differential against a reference aggregate over generated map families, permutations and bracketings",
 }
+
+CLAIMS["C02"] = {
+    "text": "Grammar-directed generation of metric and event lines whose expected fields are known by construction (names needing normalisation, all number spellings, "
+            "optional fields in every order, empty tag items, unknown fields, all event attributes, three namespaces) compared field by field with the lexer's result; "
+            "near-miss mutations of valid lines and arbitrary byte strings are checked against the stated rejection rules (no ':' / no '|' / unknown type / unparsable or NaN value / unparsable rate) "
+            "and against the stated well-formedness of anything accepted (non-empty normalised name, non-NaN value, finite rate > 0, tags non-empty without ',' or '|'). "
+            "Every call runs on a private copy embedded in a larger buffer whose tail must stay untouched, and recycles the pooled metric. Exploration plus a native fuzz campaign in the thorough tier.",
+    "note": "strconv.ParseFloat defines 'parsable number'. Silent regions of the documented grammar are excluded and counted: names starting with '_' other than '_e{', empty attribute fields, '|' inside event attribute values, header numbers of more than 19 digits.",
+    "technique": "property-based testing (rapid) with construction-known expected fields + implication oracle on mutated/arbitrary strings; native go fuzzing with the same oracle",
+}
+CLAIMS["C03"] = {
+    "text": "Generated datagrams (arbitrary bytes with NUL and newlines, 65 KiB lines, event headers with declared lengths around 0, the real length, 2^31, 2^32, 2^63, 2^64 and "
+            "uint64-wrapping digit strings; the header-number grid is enumerated exhaustively) are run through the lexer and through a real DatagramParser whose goroutine the harness owns: "
+            "any panic or wedge is a violation, metrics+events+bad-lines must equal the number of lines, and a following good datagram must still be parsed. HTTP bodies "
+            "(valid, truncated, bit-flipped, random, empty, highly compressible, wrong codec) x Content-Encoding go through the real ingestion router: a status in {202,4xx,5xx}, nothing dispatched on error, "
+            "no 202 for a body that does not decompress, and following valid requests still served. Native fuzz targets in the thorough tier.",
+    "note": "The harness recovers panics only to report them. UDP socket reads (receiver.go) are not driven here (C20 runs the server end to end). Wedge detection uses a generous wall-clock bound (60/120 s) as the only time-based signal.",
+    "technique": "property-based testing (rapid) + exhaustive boundary grid + native go fuzzing: crash-freedom with line/request accounting oracle",
+}
